@@ -11,7 +11,7 @@ from fractions import Fraction
 from lib import core, cint
 
 LEVEL = 'exploration'
-MIN_COUNTS = {'observations': (20000, 300000)}
+MIN_COUNTS = {'observations': (20000, 250000)}
 PER_TU = 900
 FT = {'f32': ('float', 4), 'f64': ('double', 8), 'f80': ('long double', 10)}
 ITYPES = cint.ALL
@@ -341,7 +341,7 @@ def run(ctx):
                 '(operator/conversion, types, value classes, context)')
     ctx.assumptions += ['oracle: gcc -O0 == clang -O0 (observations on which they differ are discarded and counted)', 'all NaNs are one equivalence class; -0 != +0',
                         'fp->int conversions are generated only when the truncated value is representable (exact Fraction test)']
-    obs = gen(T, rng, ctx.scale(120, 500))
+    obs = gen(T, rng, ctx.scale(120, 2500))
     decl = decls()
     tus = []
     for k in range(0, len(obs), PER_TU):
